@@ -385,7 +385,7 @@ fn eval_axis_node_test(
 
     let mut tested = vec![];
     for node in nodes {
-        if eval_node_test(test, node.clone(), context)? {
+        if eval_node_test(axis, test, node.clone(), context)? {
             tested.push(node);
         }
     }
@@ -427,24 +427,34 @@ fn eval_axis_node_test(
 }
 
 fn eval_node_test(
+    axis: &expr::AxisSpecifier,
     test: &expr::NodeTest,
     node: dom::XmlNode,
     context: &mut model::Context,
 ) -> error::Result<bool> {
     match test {
         expr::NodeTest::Name(name) => match name {
-            expr::NameTest::All => Ok(true),
+            expr::NameTest::All => Ok(is_principal_node_type(axis, &node)),
             expr::NameTest::Namespace(prefix) => {
                 let uri_a = context
                     .get_ns_uri(Some(prefix))
                     .ok_or_else(|| error::Error::NotFoundNamespace(prefix.to_string()))?;
+                if !is_principal_node_type(axis, &node) {
+                    return Ok(false);
+                }
                 if let Some((_, _, uri_b)) = node.as_expanded_name()? {
                     Ok(Some(uri_a) == uri_b.as_deref())
                 } else {
                     Ok(false)
                 }
             }
-            expr::NameTest::QName(qname) => equal_qname(qname, node, context),
+            expr::NameTest::QName(qname) => {
+                if is_principal_node_type(axis, &node) {
+                    equal_qname(qname, node, context)
+                } else {
+                    Ok(false)
+                }
+            }
         },
         expr::NodeTest::PI(_) => unimplemented!("Not support `processing-instruction`."),
         expr::NodeTest::Type(ty) => match ty {
@@ -455,6 +465,23 @@ fn eval_node_test(
                 || node.node_type() == dom::NodeType::EntityReference
                 || node.node_type() == dom::NodeType::CData),
         },
+    }
+}
+
+/// A name test only selects nodes of the principal node type of the axis: attributes on the
+/// attribute axis, namespace nodes on the namespace axis and elements on every other axis.
+fn is_principal_node_type(axis: &expr::AxisSpecifier, node: &dom::XmlNode) -> bool {
+    match axis {
+        expr::AxisSpecifier::Abbreviated(v) if v.as_str() == "@" => {
+            matches!(node, dom::XmlNode::Attribute(_))
+        }
+        expr::AxisSpecifier::Name(expr::AxisName::Attribute) => {
+            matches!(node, dom::XmlNode::Attribute(_))
+        }
+        expr::AxisSpecifier::Name(expr::AxisName::Namespace) => {
+            matches!(node, dom::XmlNode::Namespace(_))
+        }
+        _ => matches!(node, dom::XmlNode::Element(_)),
     }
 }
 
